@@ -577,6 +577,18 @@ def _emit_extracted(u, target, args, block, subst, emit):
                 raise ExtractError(f'{where}: bad anchor syntax')
             lit, which = m.group(1), int(m.group(3) or 0)
             pos = find_stmt(body, lit, which)
+            if pos is None and which == 0 and '(' in lit:
+                # anchor fallback: the full text is gone (an argument of the anchored call was edited).  If the call's own prefix -- the text up to and including its first `(` --
+                # still names exactly ONE place of the body, the hint is placed there (as a statement-prefix anchor), so that the edited call is judged by the contracts
+                # instead of losing the anchor.  Ambiguous or missing prefix: lost anchor as before.
+                pref = lit[:lit.index('(') + 1]
+                cbody = ''.join(body.split()); cpref = ''.join(pref.split())
+                if len(cpref) >= 12 and cbody.count(cpref) == 1:
+                    pos = find_stmt(body, pref, 0)
+                    if pos is not None:
+                        fired.add('anchor-fallback[' + pref + ']')
+                        if kind == 'after':
+                            kind = 'after_stmt'
             if pos is None:
                 raise ExtractError(f'{where}: lost anchor `{lit}` in {relpath}::{fname}')
             if kind == 'after_stmt':
